@@ -2152,7 +2152,7 @@ class Reader:
             data = sorted([r[2], r[2] + r[1] - 1] for r in I["runs"])
             index = [[b, b] for b in sorted(I["index"])]
             ind = [[b, b] for b in sorted(I["ind"])]
-            own = {"data": data, "index": index, "ind": ind, "xattr": I["xattr_blk"], "ea_inodes": I["ea_inodes"]}
+            own = {"data": data, "index": index, "ind": ind, "xattr": I["xattr_blk"], "ea_inodes": [clip(x) for x in I["ea_inodes"]]}
             rec = {"ino": I["ino"], "type": I["type"], "mode": I["mode_raw"] & 0o7777, "uid": s32(I["uid"]),
                    "gid": s32(I["gid"]), "links": I["links"], "size": split64(I["size"]),
                    "flags": names(I["flagbits"], IFLAGS), "iblocks": clip(I["iblocks_raw"]),
@@ -2280,6 +2280,7 @@ class Reader:
         P["unsupported"] = sorted(self.unsupported)
         P["short_reads"] = self.short_reads
         P["tree"] = self.tree(out_inodes, out_dirs, ix_of, dpos)
+        _sanitize(P)
         P["loc"] = self.loc
 
     def tree(self, out_inodes, out_dirs, ix_of, dpos):
@@ -2319,6 +2320,24 @@ class Reader:
             out.append(t)
         out.sort(key=lambda t: t["path"])
         return out
+
+
+def _sanitize(x):
+    """enforce the contract of the projection: every integer fits TLC (|v| < 2^31); out-of-range values clip"""
+    if isinstance(x, dict):
+        for k, v in x.items():
+            if type(v) is int:
+                if not -M31 < v < M31:
+                    x[k] = clip(v)
+            elif isinstance(v, (dict, list)):
+                _sanitize(v)
+    elif isinstance(x, list):
+        for k, v in enumerate(x):
+            if type(v) is int:
+                if not -M31 < v < M31:
+                    x[k] = clip(v)
+            elif isinstance(v, (dict, list)):
+                _sanitize(v)
 
 
 def project(path, offset=0):
